@@ -45,6 +45,7 @@ class Recorder(object):
         self.instances = {}     # rule -> found count
         self.floors = {}        # rule -> floor
         self.notes = []
+        self.metrics = {}
 
     def ob(self, rule, construct, ok, expected='', found='', func=None,
            node=None, path=None, nontrivial=True):
@@ -139,6 +140,7 @@ def write_evidence(prop, tier, seed, rec, wall, extra, n_viol, controls=None):
         'model': extra.get('model', {}),
         'controls': controls or [],
         'notes': rec.notes[:40],
+        'metrics': rec.metrics,
         'trusted_base': TRUSTED_BASE,
         'exhaustive': False,
         'checker_cmd': './check %s --tier %s' % (prop, tier),
